@@ -229,7 +229,10 @@ def build_schema(m, c_c):
         if datatype is not None:
             schema.append(datatype)
     
-    scope_filter = lambda selected: ooaofooa.is_contained_in(selected, c_c)
+    # a global data type may also be reachable from the component, e.g. via
+    # a package reference; it has been declared above and is not declared twice
+    scope_filter = lambda selected: (ooaofooa.is_contained_in(selected, c_c) and
+                                     not ooaofooa.is_global(selected))
     for s_dt in m.select_many('S_DT', scope_filter):
         datatype = build_type(s_dt)
         if datatype is not None:
